@@ -120,6 +120,9 @@ Dup == /\ "dup" \in Ops /\ h.st = "none" /\ dists # <<>>
 Xml == /\ "xml" \in Ops /\ h.st = "none" /\ dists # <<>>
        /\ Log(4, <<"xml">>) /\ UNCHANGED <<dists, h, alive, nres>>
 
+Shm == /\ "shm" \in Ops /\ dists # <<>>
+       /\ Log(6, <<"shm">>) /\ UNCHANGED <<dists, h, alive, nres>>
+
 \* ---------- observers ----------
 Query(q) == /\ "q" \in Ops
             /\ Log(Len(q[1]) * 5 + q[3] * 3 + q[5] + q[4], <<"q">> \o q)
@@ -136,7 +139,7 @@ Next == \/ \E nm \in Names, k \in Kinds, f \in CreateFlags : Create(nm, k, f)
         \/ \E d \in BadDepths : RmDepthBad(d)
         \/ \E k \in 0..MaxDists : RR(k) \/ RR2(k)
         \/ \E r \in Restricts : Restrict(r)
-        \/ Dup \/ Xml
+        \/ Dup \/ Xml \/ Shm
         \/ \E q \in Queries : Query(q)
         \/ \E k \in 0..(MaxDists - 1), x \in Xfs : Xf(k, x)
 
@@ -241,6 +244,7 @@ ASSUME ~RemoveOneRel(<<ExD, ExD>>, ExD, <<>>)
 ASSUME ~RemovalRel(<<ExD>>, "Core", <<>>) /\ ~RemovalRel(<<ExD>>, "PU", <<ExD>>)
 ASSUME ~CreateRel(3, 0, TRUE) /\ ~CreateRel(6, 0, FALSE) /\ ~CreateRel(64 + 6, 0, TRUE) /\ ~CreateRel(12, 0, TRUE) /\ ~CreateRel(6, 1, TRUE)
 ASSUME ~ValuesRel(Created("a", TRUE, 6), <<NULLOBJ, 1>>, 0, 0) /\ ~ValuesRel(Created("a", TRUE, 6), <<1, 2>>, 0, -1)
+ASSUME ~ValuesRel(Created("a", TRUE, 6), <<1, 2>>, 1, 0) /\ ~ValuesRel(Created("a", TRUE, 6), <<1>>, 0, 0)
 ASSUME ~CommitRel(Created("a", TRUE, 6), 0, 0) /\ ~CommitRel(Filled(Created("a", TRUE, 6), <<1, 2>>, <<"PU", "PU">>, <<1, 2, 3, 4>>), 4, 0)
 
 \* ---------- emission of behaviours ----------
